@@ -3,6 +3,7 @@ package fsmx
 import (
 	"fmt"
 	"os"
+	"strings"
 
 	"verifharness/hx"
 )
@@ -23,7 +24,11 @@ func Main(p Property) {
 	nviol := 0
 	unstable := 0
 	debug := os.Getenv("VERIF_FSM_DEBUG") != ""
+	fatal := 0 // cases in which the speaker wedged or panicked
 	do := func(id string, c Case) {
+		if fatal >= 12 {
+			return // the verdict is settled; every further such case costs the watchdog's seconds
+		}
 		if debug {
 			fmt.Fprintln(os.Stderr, "CASE", id, c.String())
 		}
@@ -42,6 +47,9 @@ func Main(p Property) {
 			seen[f.Sig] = true
 			hx.Violation(id, f.Sig, f.Detail)
 			nviol++
+			if strings.HasPrefix(f.Sig, "wedged") || strings.HasPrefix(f.Sig, "panic") {
+				fatal++
+			}
 		}
 	}
 	if cfg.Mode == "replay" {
